@@ -14,12 +14,14 @@ package main
 import (
 	"encoding/json"
 	"fmt"
+	"io"
 	"net/http"
 	"net/http/httptest"
 	"os"
 	"strconv"
 	"strings"
 	"sync"
+	"time"
 
 	martian "github.com/google/martian/v3"
 	"github.com/google/martian/v3/har"
@@ -277,6 +279,71 @@ func runCase(in []string) []string {
 		}
 		d.finish(out)
 		return out
+	case "SLOW":
+		// SLOW pre... B<id>:<st> during... R after...
+		// B starts RecordResponse for <id> on its own goroutine with a body
+		// that is still streaming; every operation up to R must complete (not
+		// wait for that body); R ends the body and joins.  The response counts
+		// as recorded at R.
+		d := newDriver(false)
+		d.conc = true
+		out := make([]string, 0, len(in)-1)
+		var pw *io.PipeWriter
+		var joined chan string
+		for _, op := range in[1:] {
+			switch {
+			case op[0] == 'B':
+				p := strings.SplitN(op[1:], ":", 2)
+				st, _ := strconv.Atoi(p[1])
+				var pr *io.PipeReader
+				pr, pw = io.Pipe()
+				res := mkRes(st, mkReq(p[0]))
+				res.Body = pr
+				res.ContentLength = -1
+				joined = make(chan string, 1)
+				go func(id string) {
+					if err := d.l.RecordResponse(id, res); err != nil {
+						joined <- "err"
+						return
+					}
+					joined <- "d"
+				}(p[0])
+				pw.Write([]byte("first part of a body that is still streaming"))
+				time.Sleep(20 * time.Millisecond)
+				out = append(out, "b")
+			case op == "R":
+				if pw == nil {
+					out = append(out, "badop")
+					continue
+				}
+				pw.Close()
+				select {
+				case x := <-joined:
+					out = append(out, x)
+				case <-time.After(5 * time.Second):
+					out = append(out, "BLOCKED")
+				}
+				pw = nil
+			default:
+				done := make(chan string, 1)
+				go func(op string) { done <- d.do(op) }(op)
+				select {
+				case x := <-done:
+					out = append(out, x)
+				case <-time.After(2 * time.Second):
+					out = append(out, "BLOCKED")
+					if pw != nil { // let it through so that the case can finish
+						pw.Close()
+						out2 := <-done
+						_ = out2
+					}
+				}
+			}
+		}
+		if pw != nil {
+			pw.Close()
+		}
+		return out
 	case "CONC":
 		d := newDriver(false)
 		d.conc = true
@@ -343,7 +410,13 @@ func stamp(ops []string) []string {
 	o := make([]string, len(ops))
 	for i, op := range ops {
 		if op[0] == 'S' && !strings.Contains(op, ":") {
-			o[i] = fmt.Sprintf("%s:%d", op, 200+i)
+			st := 200 + i
+			// every status is a response: 1xx (101 Switching Protocols is final),
+			// 204/304, 4xx/5xx and out-of-range codes are recorded like any other
+			if i%7 == 3 {
+				st = []int{101, 100, 199, 204, 304, 404, 500, 599, 999, 1}[(i/7)%10]
+			}
+			o[i] = fmt.Sprintf("%s:%d", op, st)
 		} else {
 			o[i] = op
 		}
@@ -490,7 +563,11 @@ func main() {
 			case c < 7:
 				ops[i] = "Q" + id
 			case c < 13:
-				ops[i] = fmt.Sprintf("S%s:%d", id, 200+i)
+				st := 200 + i
+				if i%5 == 2 {
+					st = []int{101, 100, 199, 204, 304, 500}[(i/5)%6]
+				}
+				ops[i] = fmt.Sprintf("S%s:%d", id, st)
 			case c < 16:
 				ops[i] = "E"
 			case c < 19:
@@ -500,6 +577,38 @@ func main() {
 			}
 		}
 		emit("mod", append([]string{"MOD"}, ops...))
+	}
+
+	// 2c. a response whose body is still streaming must not hold up the log:
+	// other connections' records and the exports go on meanwhile.
+	ns := 12
+	if cfg.Thorough() {
+		ns = 150
+	}
+	if concOnly {
+		ns = 0
+	}
+	for k := 0; k < ns; k++ {
+		r := rng.Fork()
+		in := []string{"SLOW", "Q1"}
+		for j := r.Intn(3); j > 0; j-- {
+			in = append(in, randOp(r, 3))
+		}
+		in = append(in, "Q1") // make sure 1 is in the log (a duplicate is fine)
+		in = append(in, fmt.Sprintf("B1:%d", 200+k))
+		for j := r.Range(2, 5); j > 0; j-- {
+			op := randOp(r, 3)
+			if op == "S1" || op == "Z" {
+				op = "E"
+			}
+			in = append(in, op)
+		}
+		in = append(in, "R")
+		for j := r.Range(1, 3); j > 0; j-- {
+			in = append(in, randOp(r, 3))
+		}
+		in = append(in, "E", "X", "E")
+		emit("slow", append([]string{"SLOW"}, stamp(in[1:])...))
 	}
 
 	// 3. concurrent batches: 2..3 threads x <=4 ops on overlapping IDs
